@@ -151,9 +151,10 @@ def model_requests(mexe, reqs):
 
 # ---------------------------------------------------------------------------------------------- checks
 def B0(N, na):
-    """the bound of C12_terminates_from_init, as written out by theorem C12_B0 (Properties_C12.v); B0(2,3) = 82 is Example C12_ex_bound"""
-    return (3 * N + 5) + ((na + N - 1) // N) * (6 + N * (9 + 2 * N)) + 3 * N + 1
-assert B0(2, 3) == 82
+    """the bound of C12_terminates_from_init, as written out by theorem C12_B0 (Properties_C12.v), N >= 1, na >= 1;
+    B0(2,3) = 71 is Example C12_ex_bound"""
+    return (6 * N + 6) + ((na + N - 1) // N) * (6 + 2 * N) + na * (7 + 2 * N)
+assert B0(2, 3) == 71
 
 def check_termination_bound(mexe, configs, out, cov):
     """TEST of C12_terminates_from_init on the extracted model: the exact length of the longest schedule of thread steps from the
